@@ -98,16 +98,69 @@ def make_events(chk, pairs, work, file_every):
     return events
 
 
+def _pair_screen(t):
+    """diff + patch of one enumerated pair with the real code: anything other than an exact round trip marks it"""
+    from nbdime import diff_notebooks, patch_notebook
+    from . import concretize
+    try:
+        a, b = concretize.concrete(t["base"]), concretize.concrete(t["local"])
+    except Exception:
+        return None
+    try:
+        d = diff_notebooks(a, b)
+        if (a != b) != bool(d):
+            return "empty-iff-same"
+        snap = json.dumps(d, sort_keys=True, default=str)
+        if patch_notebook(a, d) != b:
+            return "roundtrip"
+        if json.dumps(d, sort_keys=True, default=str) != snap or patch_notebook(a, d) != b:
+            return "repeat"
+    except Exception as e:  # noqa
+        return "raised:%s" % type(e).__name__
+    return None
+
+
+def pair_sweep(chk, cap):
+    """EVERY TLC-enumerated pair (<= 2 edits) goes through the real differ and patcher; the pairs a cheap screen marks
+    are forwarded to the validation (the screen selects, TLC decides)."""
+    import multiprocessing
+    from . import concretize
+    from .corpus import enumerate_edits
+    tr = enumerate_edits(2, 0)
+    with multiprocessing.get_context("fork").Pool(common.NCPU) as pool:
+        why = pool.map(_pair_screen, tr, chunksize=128)
+    groups = {}
+    for t, w in zip(tr, why):
+        if w:
+            groups.setdefault(w, []).append(t)
+    picked, keys = [], sorted(groups)
+    while len(picked) < cap and keys:
+        for k in list(keys):
+            if groups[k]:
+                picked.append(groups[k].pop())
+                if len(picked) >= cap:
+                    break
+            else:
+                keys.remove(k)
+    chk.notes["pair_sweep"] = {"pairs_diffed_and_patched": len(tr), "marked": sum(1 for w in why if w), "forwarded": len(picked)}
+    out = []
+    for k, t in enumerate(picked):
+        a, b = concretize.concrete(t["base"]), concretize.concrete(t["local"])
+        if concretize.is_valid(a) and concretize.is_valid(b):
+            out.append(("sweep%d" % k, a, b, {"source": "sweep", "script": t["hist"], "abstract": {"a": t["base"], "b": t["local"]}}))
+    return out
+
+
 def run():
     chk = Check("C01")
     work = tlc.subdir("c01")
     isolate_config(work)
     corp = Corpus(chk)
     if chk.quick:
-        pairs = corp.pairs(n_enum=1500, n_random=400, n_unrelated=80, bases=("b1", "b2", "b3", "b4", "b5", "b6"))
+        pairs = corp.pairs(n_enum=1500, n_random=400, n_unrelated=80) + pair_sweep(chk, 150)
         file_every = 8
     else:
-        pairs = corp.pairs(n_enum=None, n_random=6000, n_unrelated=1500)
+        pairs = corp.pairs(n_enum=None, n_random=6000, n_unrelated=1500) + pair_sweep(chk, 1500)
         file_every = 10
     events = make_events(chk, pairs, work, file_every)
     byid = {ev["tid"]: ev for ev in events}
